@@ -8,6 +8,7 @@ import Driver.Util
    out <bits>      → `<class> i16=<RES2INT16> i24=<RES2INT24> f=<RES2FLOAT bits>`
    f2i16 <hex>     celt_float2int16 on an array of little-endian floats → int16 values `a,b,c`
    enc16|enc24|encf <st.lsb_depth> <channels> <frame_size_select result> <samples LE>   the argument tuple handed to opus_encode_native
+   ms16|ms24|msf <lsb_depth> <channels> <streams> <coupled> <mapping a,b,…> <samples LE>   per-stream argument tuples of a multistream encode
    dec16|dec24|decf <frame_size> <nb_samples> <packet given 0/1> <floats the core writes>  soft_clip flag, frame size handed down, converted output
    proj <m0,m1,…> <hex>   one output sample of mapping_matrix_multiply_channel_out_short: Q15 cells, stream floats → `<plain|saturated> i16=<v>` -/
 namespace Driver.SuitePcm
@@ -64,7 +65,27 @@ def decOut (fmt : Nat) (fs nb : Int) (uses : Nat) (bs : Bytes) : Option String :
     let (clip, fsDown, o) := decodeEntry fmt fs nb (uses == 1) out
     s!"clip={clip} fs={fsDown} out={intList o}"
 
+def showMs (dm : String) : Option (List CoreArgs) → String
+  | none => "bad-layout"
+  | some l => s!"ok n={l.length} " ++ " | ".intercalate (l.map fun a =>
+      s!"c1={a.c1} c2={a.c2} ach={a.analysisChannels} depth={a.lsbDepth} fapi={a.floatApi} dm={dm} fs={a.frameSize} as={a.analysisSize} res={toHex (bitsToBytes a.res)} sig={toHex (bitsToBytes a.sig)}")
+
+def msOut (fmt stDepth C streams coupled : Nat) (mapping : List Nat) (bs : Bytes) : Option String :=
+  if C = 0 then none else
+  match fmt with
+  | 16 => (bytesToS16 bs).map fun pcm => showMs "int" (msArgs int16ToRes int16ToSig 0 16 0 stDepth C streams coupled mapping pcm)
+  | 24 => (bytesToS32 bs).map fun pcm => showMs "int24" (msArgs int24ToRes int24ToSig 0 24 0 stDepth C streams coupled mapping pcm)
+  | _ => (bytesToBits bs).map fun pcm => showMs "float" (msArgs float2Res float2Sig 0 24 1 stDepth C streams coupled mapping pcm)
+
+def msHandle (fmt : Nat) (d c st cp mp hex : String) : String :=
+  match parseNat d, parseNat c, parseNat st, parseNat cp, parseNatList mp, parseHex hex with
+  | some d, some c, some st, some cp, some mp, some bs => (msOut fmt d c st cp mp bs).getD "bad-op"
+  | _, _, _, _, _, _ => "bad-op"
+
 def handle : List String → String
+  | ["ms16", d, c, st, cp, mp, hex] => msHandle 16 d c st cp mp hex
+  | ["ms24", d, c, st, cp, mp, hex] => msHandle 24 d c st cp mp hex
+  | ["msf", d, c, st, cp, mp, hex] => msHandle 32 d c st cp mp hex
   | ["enc16", d, c, fss, hex] =>
     match parseNat d, parseNat c, parseInt fss, parseHex hex with
     | some d, some c, some fss, some bs => (encArgs 16 d c fss bs).getD "bad-op"
